@@ -15,17 +15,15 @@ RULE = ('object graphs as for C05 with sharing probability 0-0.5, self- and mutu
         'object, or an evaluation error; log fields; captured return values / raised exceptions; several frames sharing '
         'objects (MockFrame chain, all_frame). Oracle: closure of every reference, one object one id (identity by `is` on '
         'the live objects), children / frame variables / watch results denote the right live object, temporaries never share '
-        'an id. Separate labelled streams for the two recorded findings (locals dict referenced from the frame or a watch; '
-        'capture after the budget is exhausted). Non-trivial = some object is reached by two references or the budget was '
+        'an id; values whose inspection raises and captures after the budget is exhausted are in the judged stream. A separate '
+        'labelled stream for the recorded finding (locals dict referenced from the frame or a watch). Non-trivial = some object is reached by two references or the budget was '
         'hit. Distinct = canonical JSON of the case.')
 TRUSTED = ['CPython frame.f_locals / eval / id() semantics (the locals dict of a frame is one object per frame in 3.12)',
            'harness/props/collector_common.py: object builder, raw-fact walker (describe_heap), identity bookkeeping']
 ASSUMPTIONS = ['distinct live objects have distinct id(); values created by watch expressions stay alive while the action '
-               'runs because process_variable holds them (c07_ids_stable re-checks that the code still does)',
-               'the unguarded probes of the collector do not raise (Benign; the other case is the C06 finding)']
+               'runs because process_variable holds them (c07_ids_stable re-checks that the code still does)']
 
 D31 = 'C07/locals-dict-self-reference'
-CAPTURE = 'C07/capture-result-without-id'
 
 
 def gen(rng, tier):
@@ -34,7 +32,7 @@ def gen(rng, tier):
         r = rng.random()
         n = rng.choice([120, 250, 400]) if big and rng.random() < 0.1 else None
         if r < 0.55:
-            yield cc.gen_case(rng, nobj=n)
+            yield cc.gen_case(rng, nobj=n, hostile=rng.choice([0, 0, 0.05]))
         elif r < 0.65:
             yield cc.gen_case(rng, nobj=n, small=False)
         elif r < 0.75:
@@ -58,7 +56,7 @@ def gen(rng, tier):
                 c['actions'][0].setdefault('watches', []).append('loc')
             yield c
         else:
-            # a captured return value after the budget is used up (finding candidate)
+            # a captured return value after the budget is used up
             yield cc.gen_case(rng, nobj=rng.choice([10, 16, 25]), capture='return', watches=False, stream='capture-budget',
                               lim={'vars': rng.choice([0, 1, 3]), 'str': None, 'coll': None, 'depth': None})
 
@@ -71,17 +69,24 @@ def known_replays():
         (D31, 'watch `locals()`: the watch result points at the deleted locals pseudo-entry',
          {'objs': [{'t': 'int', 'v': 1}], 'locals': [['x', 0]], 'frame_type': 'single_frame', 'stream': 'd31',
           'actions': [{'limits': {}, 'watches': ['locals()']}]}),
-        (CAPTURE, 'MAX_VARIABLES=2, frame a=[1,2,3], b="bb", line-capture of `return [a, b, 7]`: the captured value is '
-                  'attached as a result with no id (process_capture_variable has no guard for an exhausted budget)',
-         {'objs': [{'t': 'list', 'e': [1, 2, 3]}, {'t': 'int', 'v': 1}, {'t': 'int', 'v': 2}, {'t': 'int', 'v': 3},
-                   {'t': 'str', 'v': 'bb'}],
-          'locals': [['a', 0], ['b', 4]], 'frame_type': 'single_frame', 'stream': 'capture-budget', 'capture': 'return',
-          'capture_expr': '[a, b, 7]', 'actions': [{'limits': {'vars': 2}}]}),
     ]
 
 
 def corpus():
     return [
+        # a captured return value after the budget is used up must not be attached without id
+        {'objs': [{'t': 'list', 'e': [1, 2, 3]}, {'t': 'int', 'v': 1}, {'t': 'int', 'v': 2}, {'t': 'int', 'v': 3},
+                  {'t': 'str', 'v': 'bb'}],
+         'locals': [['a', 0], ['b', 4]], 'frame_type': 'single_frame', 'stream': 'corpus', 'capture': 'return',
+         'capture_expr': '[a, b, 7]', 'actions': [{'limits': {'vars': 2}}]},
+        # a value whose inspection raises, first seen by a watch, then watched again
+        {'objs': [{'t': 'list', 'e': [1, 2]}, {'t': 'int', 'v': 300}, {'t': 'hostile', 'k': 'slots_getattr'}],
+         'locals': [['x', 0]], 'frame_type': 'no_frame', 'stream': 'corpus',
+         'actions': [{'limits': {}, 'watches': ['x', 'x', 'x[1]']}]},
+        # names beginning with '_' + container type name keep their names
+        {'objs': [{'t': 'dict', 'k': [[{'s': '_dict_size'}, 1], [{'s': '_list_y'}, 1]]}, {'t': 'int', 'v': 7}],
+         'locals': [['_dict_size', 1], ['d', 0]], 'frame_type': 'single_frame', 'stream': 'corpus',
+         'actions': [{'limits': {}, 'watches': ['d']}]},
         # D9: two temporaries of the same shape must not share an id
         {'objs': [{'t': 'int', 'v': 1}], 'locals': [['a', 0]], 'frame_type': 'no_frame', 'stream': 'corpus',
          'actions': [{'limits': {}, 'watches': ['{"k": 1}', '{"k": 2}', '{"k": 1000}', '[a, 1]']}]},
@@ -115,8 +120,6 @@ def oracle(case, obs):
 def known_finding(case, obs):
     if cc.refers_to_locals(case):
         return D31
-    if case.get('capture') and any(a['limits'].get('vars') is not None for a in case['actions']):
-        return CAPTURE
     return None
 
 
